@@ -332,7 +332,7 @@ def _si(unit):
 
 def run_shard(ctx):
     i = 0
-    reps = 1 if ctx.tier == 'quick' else 6
+    reps = 2 if ctx.tier == 'quick' else 8
     for rep in range(reps):
         for da, db in itertools.product(DIMS, DIMS):
             for mclass in MAGS:
